@@ -4,7 +4,7 @@
 -/
 import PotasscoVerif.Model.BufferedStream
 namespace PotasscoVerif.CharStream
-open PotasscoVerif.BufferedStream (Op Obs IntRes isWs isDigit toDigit I64MAX)
+open PotasscoVerif.BufferedStream (Op Obs IntRes isWs isDigit toDigit I64MAX decLine)
 
 structure AS where
   rest     : List Nat
@@ -38,7 +38,7 @@ def AS.skipWsF : Nat → AS → AS
 def AS.skipWs (a : AS) : AS := AS.skipWsF (a.rest.length + 1) { a with canUnget := false }
 
 def AS.unget (a : AS) (c : Nat) : AS :=
-  { rest := c :: a.rest, line := if c == 10 then a.line - 1 else a.line, canUnget := false }
+  { rest := c :: a.rest, line := if c == 10 then decLine a.line else a.line, canUnget := false }
 
 /-- token match: drops `w` iff the stream starts with `w`; otherwise nothing changes. -/
 def AS.matchTok (a : AS) (w : List Nat) : Bool × AS :=
@@ -85,7 +85,7 @@ def AS.step (a : AS) : Op → Obs × AS
   | .matchInt n => let (r, a') := a.matchInt n; (.int r, a')
   | .copy n => let (bs, a') := a.copy n; (.bytes bs, a')
   | .atEnd => (.bool (a.peek == 0), a)
-  | .line => (.nat a.line, a)
+  | .line => (.nat (a.line % 4294967296), a)
 
 /-- what the property quantifies over: admissible operations in an abstract state. -/
 def Adm (B : Nat) (a : AS) : Op → Prop
